@@ -234,3 +234,30 @@ fn filename<const L: usize>() {
 fn c14_filename_3() {
     filename::<3>();
 }
+
+// Bare markers (empty payload): the offset constants must not exceed the marker length.
+#[kani::proof]
+#[kani::unwind(24)]
+fn c14_bare_markers() {
+    let git: bool = kani::any();
+    let (r, ev) = parse_diff_header_line("rename from ", git);
+    assert!(r.is_empty() && ev == FileEvent::Rename, "bare 'rename from '");
+    std::mem::forget(r);
+    let (r, ev) = parse_diff_header_line("rename to ", git);
+    assert!(r.is_empty() && ev == FileEvent::Rename, "bare 'rename to '");
+    std::mem::forget(r);
+    let (r, ev) = parse_diff_header_line("copy from ", git);
+    assert!(r.is_empty() && ev == FileEvent::Copy, "bare 'copy from '");
+    std::mem::forget(r);
+    let (r, ev) = parse_diff_header_line("copy to ", git);
+    assert!(r.is_empty() && ev == FileEvent::Copy, "bare 'copy to '");
+    std::mem::forget(r);
+    let (r, ev) = parse_diff_header_line("new file mode ", git);
+    assert!(r.is_empty() && ev == FileEvent::Added, "bare 'new file mode '");
+    std::mem::forget(r);
+    let (r, ev) = parse_diff_header_line("deleted file mode ", git);
+    assert!(r.is_empty() && ev == FileEvent::Removed, "bare 'deleted file mode '");
+    std::mem::forget(r);
+    kani::cover!(git, "git source");
+    kani::cover!(true, "end of harness reached");
+}
